@@ -64,6 +64,22 @@ func SeqProfileFor(name string, seed int64) SeqProfile {
 		p.Trigs = [][2]string{{"ta", "a"}, {"ts", "s"}, {"ta2", "a"}}
 		p.PSchema = 0.2
 		p.PRollback, p.PFailIns = 0.2, 0.1
+	case "c07": // snapshot -> restore -> continue cycles over all kinds, indexes, sorted index, several blocks
+		p.Cols = []ColDesc{{"a", "int", "add", numRepr()}, {"s", "str", []string{"", "concat"}[r.Intn(2)], "string"}, {"b", "bool", "", "bool"},
+			{"e", "enum", "", "enum"}, {"t", "tok", "", numRepr()}, {"y", "int", "add", "record"}}
+		p.Idx = []IdxDesc{{"big", "a", "ge", 5}, {"on", "b", "true", 0}, {"e1", "e", "eq", "e1"}}
+		p.Sorts = [][2]string{{"byS", "s"}}
+		p.SortFirst = true
+		p.PSnap = 0.12
+		p.Steps = 30
+		p.PRollback, p.PFailIns = 0.05, 0.05
+	case "c07k": // the same with a key column
+		p.Cols = []ColDesc{{"k", "key", "", "key"}, {"a", "int", "add", numRepr()}}
+		p.Keyed = true
+		p.Prologue = ""
+		p.PInsert, p.PDelete = 0.4, 0.2
+		p.PSnap = 0.12
+		p.Steps = 30
 	case "c12": // primary keys over a small alphabet: several key operations per transaction, rollbacks, re-keying
 		p.Cols = []ColDesc{{"k", "key", "", "key"}, {"a", "int", "add", numRepr()}}
 		p.Keyed = true
